@@ -74,6 +74,10 @@ func (n *NodeCredentials) Store(ctx context.Context, storage nodeenrollment.Stor
 		if err != nil {
 			return fmt.Errorf("(%s) error reading wrapper key id: %w", op, err)
 		}
+		if keyId == "" {
+			// Load recognizes sealed records by a non-empty wrapping key ID
+			return fmt.Errorf("(%s) storage wrapper has no key id", op)
+		}
 		credsToStore.WrappingKeyId = keyId
 
 		blobInfo, err := opts.WithStorageWrapper.Encrypt(
